@@ -668,6 +668,9 @@ func (r *Report) Finish(c *Ctx, verifDir string, start time.Time, explanation st
 		}
 	}
 	for _, cr := range r.Controls {
+		if strings.HasPrefix(cr.Result, "SKIPPED") {
+			lines = append(lines, fmt.Sprintf("NOTE property=%s self-test %s not run: %s", r.Prop, cr.Name, cr.Result))
+		}
 		if strings.HasPrefix(cr.Result, "FAIL") {
 			lines = append(lines, fmt.Sprintf("UNDECIDED property=%s self-test %s (%s, rule %s): %s", r.Prop, cr.Name, cr.Kind, cr.Rule, cr.Result))
 			if exit == 0 {
